@@ -239,15 +239,19 @@ def max_common_case(rng, kind=None):
     return c
 
 
-def int_weights_case(rng, kind=None):
+def int_weights_case(rng, kind=None, scalar=False):
     """Integer weights 0..250 whose sums cross 128 / 256 (pair form or an all-valid bare array), so that the narrow
     integer dtypes the form layer picks for them (uint8, int16 ...) are exercised where a narrow accumulator would wrap."""
     c = gen_case(rng, kind=kind or rng.choice(["mean", "mean", "count", "valid_count", "sum"]), nd=rng.choice([1, 1, 2, 2]),
                  N=rng.choice([3, 4, 5, 6, 8]))
     N = c["N"]
-    c["wkind"] = rng.choice(["pair", "pair", "arr"])
-    c["w"] = [rng.choice(INT_W_POOL) for _ in range(N)]
-    c["wvalid"] = [True] * N if c["wkind"] == "arr" else [rng.random() >= rng.choice([0.0, 0.2]) for _ in range(N)]
+    c["wkind"] = rng.choice(["scalar", "scalar_pair"]) if scalar else rng.choice(["pair", "pair", "arr", "scalar", "scalar_pair"])
+    if c["wkind"].startswith("scalar"):         # weight * number of rows beyond the narrow dtype that holds the weight
+        c["w"] = rng.choice([Fr(x) for x in (3, 56, 100, 128, 200, 250, 1000, 40000)])
+        c["wvalid"] = rng.random() >= 0.08
+    else:
+        c["w"] = [rng.choice(INT_W_POOL) for _ in range(N)]
+        c["wvalid"] = [True] * N if c["wkind"] == "arr" else [rng.random() >= rng.choice([0.0, 0.2]) for _ in range(N)]
     c["whidden"] = rng.choice(["zero", "same"])
     if c["form_seed"] is None:
         c["form_seed"] = rng.getrandbits(30)
@@ -334,10 +338,9 @@ def hidden_value(tag, true_value, dtype):
 #     narrow SIGNED ints are generated only unweighted and when N * max|value| fits),
 #   * a weights TUPLE of numbers (a tuple is the (values, validity) pair by definition), interacting_shape as a list
 #     (the constructors concatenate tuples), unsigned NumPy scalars as interacting_shape entries (xcube: TypeError),
-#   * a scalar weight as a NARROW NumPy integer scalar (ccube.count wraps modulo 2^bits: candidate finding),
 #   * an iindex whose `common` is a NumPy integer scalar TOGETHER WITH xcube(d.to_array()) (iindex.to_array -> numpy.object
-#     AttributeError when it is the first distinct value: candidate finding in the iindex vertical); with explicit dense
-#     arrays for the array cube NumPy-scalar commons ARE generated.
+#     AttributeError; outside the quantifier: iindex.validate() requires plain-int coordinates); with explicit dense arrays
+#     for the array cube NumPy-scalar commons ARE generated.
 FORM_TAGS = []          # tags of the forms used since the last drain (Suite.call moves them into the distribution)
 
 
@@ -429,18 +432,24 @@ def build_weights(c):
         x = float(c["w"])
         if frng is None:
             return x
-        kinds = ["python-float", "numpy.float64", "0-d array"] + (["numpy.float32"] if float(numpy.float32(x)) == x else []) + (["python-int", "numpy.int64"] if integral else [])
+        kinds = ["python-float", "numpy.float64", "0-d array"] + (["numpy.float32"] if float(numpy.float32(x)) == x else [])
+        if integral:            # every integer dtype holding it, the narrow ones (weight * rows beyond the dtype: F29) preferred
+            ints = forms.int_dtypes_holding([int(x)])
+            kinds += ["python-int"] + ["numpy." + d for d in ints] + ["numpy." + d for d in ints[:2]] * 2
         k = frng.choice(kinds)
         _tag("weight-scalar:" + k)
+        if k.startswith("numpy.") and k not in ("numpy.float64", "numpy.float32"):
+            return numpy.dtype(k[6:]).type(int(x))
         return {"python-float": x, "numpy.float64": numpy.float64(x), "0-d array": numpy.array(x), "numpy.float32": numpy.float32(x),
-                "python-int": int(x), "numpy.int64": numpy.int64(int(x))}[k]
+                "python-int": int(x)}[k]
     if wk == "scalar_pair":
         x = float(c["w"]) if c["wvalid"] else hidden_value(c["whidden"], c["w"], "f8")
         if frng is None or frng.random() < 0.5:
             return (x, bool(c["wvalid"]))
-        if integral and c["wvalid"] and frng.random() < 0.5:
-            _tag("weight-scalar-pair:python-int")
-            return (int(x), True)
+        if integral and c["wvalid"] and frng.random() < 0.6:
+            d = frng.choice(["python-int"] + forms.int_dtypes_holding([int(x)]))
+            _tag("weight-scalar-pair:" + ("python-int" if d == "python-int" else "numpy." + d))
+            return (int(x), True) if d == "python-int" else (numpy.dtype(d).type(int(x)), frng.choice([True, numpy.bool_(True)]))
         _tag("weight-scalar-pair:numpy")
         return (numpy.float64(x), numpy.bool_(c["wvalid"]))
     vals = numpy.array([float(v) if ok else hidden_value(c["whidden"], v, "f8") for v, ok in zip(c["w"], c["wvalid"])], dtype=float)
